@@ -652,17 +652,19 @@ func TestVerifC01Child(t *testing.T) {
 		t.Fatalf("dial: %v", err)
 	}
 	say(dnsserver.C01Event{Gen: "ready"})
-	lab := &c01Lab{l: &vlab{Wait: 100 * time.Millisecond}, dc: dc, h: h}
+	// (one input per child process: a generous wait costs little and keeps a loaded machine from
+	// turning a late handler call into "the handler was not entered")
+	lab := &c01Lab{l: &vlab{Wait: 1500 * time.Millisecond}, dc: dc, h: h}
 	ev := dnsserver.C01Event{T: tr, Gen: "in"}
 	dnsserver.C01Classify(&ev, payload)
 	lab.exchange(&ev, payload, "", nil, false)
-	time.Sleep(100 * time.Millisecond)
+	time.Sleep(300 * time.Millisecond)
 	ev.Gen, ev.Items = "in", nil
 	say(ev)
 	rnd := rand.New(rand.NewSource(1))
 	m := c01Query(rnd, "Probe.c01.example.", dns.TypeA, dns.ClassINET)
 	pe := dnsserver.C01Event{T: tr, H: "writes"}
-	lab.l.Wait = 300 * time.Millisecond
+	lab.l.Wait = 1500 * time.Millisecond
 	lab.exchange(&pe, c01Pack(m), "", nil, true)
 	pe.Gen, pe.Items, pe.Probe = "probe", nil, "fail"
 	if pe.N == 1 && pe.IDOK && pe.QOK && pe.HWrote && pe.RcEq && pe.AnsEq {
